@@ -366,3 +366,306 @@ impl Analysis {
         }
     }
 }
+
+// ---------------------------------------------------------------------------------------------
+// write sets (for the cancellation fault): every variable name a statement may assign or declare
+
+fn lv_targets(l: &Lv, out: &mut BTreeSet<String>) {
+    match l {
+        Lv::Underscore | Lv::Lit(_) => {}
+        Lv::Ident(n, _) => {
+            out.insert(n.clone());
+        }
+        Lv::Annot(inner, _) | Lv::Default(inner, _) | Lv::Splat(inner) => lv_targets(inner, out),
+        Lv::Seq(xs, _) => {
+            for x in xs {
+                lv_targets(x, out);
+            }
+        }
+        Lv::Or(a, b) | Lv::And(a, b) => {
+            lv_targets(a, out);
+            lv_targets(b, out);
+        }
+        Lv::Destructure(_, args) => {
+            for a in args {
+                lv_targets(a, out);
+            }
+        }
+    }
+}
+
+/// names written anywhere in `e`; with `only_in_lambdas` only the writes inside lambda bodies
+pub fn writes(e: &Ex, only_in_lambdas: bool) -> BTreeSet<String> {
+    let mut out = BTreeSet::new();
+    collect_writes(e, !only_in_lambdas, &mut out);
+    out
+}
+
+/// does the expression call anything (then closures defined earlier may run)
+pub fn contains_call(e: &Ex) -> bool {
+    let mut found = false;
+    walk(e, &mut |x| {
+        if matches!(x, Ex::Call(..) | Ex::Bin(..) | Ex::Chain(..) | Ex::OpAssign(..)) {
+            found = true;
+        }
+    });
+    found
+}
+
+fn walk(e: &Ex, f: &mut dyn FnMut(&Ex)) {
+    f(e);
+    match e {
+        Ex::Null | Ex::Num(_) | Ex::Str(_) | Ex::Var(_) | Ex::Continue(_) | Ex::EvalText(_) => {}
+        Ex::List(xs) | Ex::CommaSeq(xs) | Ex::Seq(xs, _) => xs.iter().for_each(|x| walk(x, f)),
+        Ex::Dict(d, kvs) => {
+            if let Some(d) = d {
+                walk(d, f);
+            }
+            for (k, v) in kvs {
+                walk(k, f);
+                if let Some(v) = v {
+                    walk(v, f);
+                }
+            }
+        }
+        Ex::Index(a, b) | Ex::And(a, b) | Ex::Or(a, b) | Ex::Coalesce(a, b) | Ex::While(a, b) => {
+            walk(a, f);
+            walk(b, f);
+        }
+        Ex::Bin(a, _, b) => {
+            walk(a, f);
+            walk(b, f);
+        }
+        Ex::Slice(x, a, b) => {
+            walk(x, f);
+            if let Some(a) = a {
+                walk(a, f);
+            }
+            if let Some(b) = b {
+                walk(b, f);
+            }
+        }
+        Ex::Call(g, args) => {
+            walk(g, f);
+            args.iter().for_each(|x| walk(x, f));
+        }
+        Ex::Splat(x) | Ex::Throw(x) | Ex::Freeze(x) | Ex::EvalOf(x) => walk(x, f),
+        Ex::Chain(first, rest) => {
+            walk(first, f);
+            rest.iter().for_each(|(_, x)| walk(x, f));
+        }
+        Ex::Update(x, kvs) => {
+            walk(x, f);
+            for (k, v) in kvs {
+                walk(k, f);
+                walk(v, f);
+            }
+        }
+        Ex::If(c, a, b) => {
+            walk(c, f);
+            walk(a, f);
+            if let Some(b) = b {
+                walk(b, f);
+            }
+        }
+        Ex::For(clauses, body) => {
+            for c in clauses {
+                match c {
+                    Clause::Each(_, e) | Clause::Pairs(_, e) | Clause::Decl(_, e) | Clause::Guard(e) => walk(e, f),
+                }
+            }
+            match &**body {
+                ForBody::Do(b) => walk(b, f),
+                ForBody::Yield(b, into) => {
+                    walk(b, f);
+                    if let Some(i) = into {
+                        walk(i, f);
+                    }
+                }
+                ForBody::YieldItem(k, v, into) => {
+                    walk(k, f);
+                    walk(v, f);
+                    if let Some(i) = into {
+                        walk(i, f);
+                    }
+                }
+            }
+        }
+        Ex::Break(_, v) | Ex::Return(v) => {
+            if let Some(v) = v {
+                walk(v, f);
+            }
+        }
+        Ex::Try(a, _, b) => {
+            walk(a, f);
+            walk(b, f);
+        }
+        Ex::Lambda(_, body) => walk(body, f),
+        Ex::Switch(s, arms) => {
+            walk(s, f);
+            arms.iter().for_each(|(_, b)| walk(b, f));
+        }
+        Ex::Assign(_, _, rhs) | Ex::OpAssign(_, _, _, rhs) => walk(rhs, f),
+        Ex::Pop(_) | Ex::Remove(_) | Ex::Consume(_) | Ex::Swap(..) => {}
+        Ex::StructDef(_, fields) => {
+            for (_, d) in fields {
+                if let Some(d) = d {
+                    walk(d, f);
+                }
+            }
+        }
+    }
+}
+
+fn collect_writes(e: &Ex, active: bool, out: &mut BTreeSet<String>) {
+    // `active`: writes at this position count
+    match e {
+        Ex::Lambda(params, body) => {
+            // parameters are locals of the call; body writes count from here on
+            let _ = params;
+            let mut inner = BTreeSet::new();
+            collect_writes(body, true, &mut inner);
+            out.extend(inner);
+        }
+        Ex::Assign(_, l, rhs) => {
+            if active {
+                lv_targets(l, out);
+            }
+            collect_writes(rhs, active, out);
+        }
+        Ex::OpAssign(_, l, _, rhs) => {
+            if active {
+                lv_targets(l, out);
+            }
+            collect_writes(rhs, active, out);
+        }
+        Ex::Pop(l) | Ex::Remove(l) | Ex::Consume(l) => {
+            if active {
+                lv_targets(l, out);
+            }
+        }
+        Ex::Swap(a, b) => {
+            if active {
+                lv_targets(a, out);
+                lv_targets(b, out);
+            }
+        }
+        Ex::StructDef(name, fields) => {
+            if active {
+                out.insert(name.clone());
+                for (f, _) in fields {
+                    out.insert(f.clone());
+                }
+            }
+        }
+        Ex::For(clauses, body) => {
+            for c in clauses {
+                match c {
+                    Clause::Each(_, x) | Clause::Pairs(_, x) | Clause::Decl(_, x) | Clause::Guard(x) => {
+                        collect_writes(x, active, out)
+                    }
+                }
+            }
+            match &**body {
+                ForBody::Do(b) => collect_writes(b, active, out),
+                ForBody::Yield(b, into) => {
+                    collect_writes(b, active, out);
+                    if let Some(i) = into {
+                        collect_writes(i, active, out);
+                    }
+                }
+                ForBody::YieldItem(k, v, into) => {
+                    collect_writes(k, active, out);
+                    collect_writes(v, active, out);
+                    if let Some(i) = into {
+                        collect_writes(i, active, out);
+                    }
+                }
+            }
+        }
+        other => {
+            let (children, _) = children_of(other);
+            for c in children {
+                collect_writes(&c, active, out);
+            }
+        }
+    }
+}
+
+fn children_of(e: &Ex) -> (Vec<Ex>, ()) {
+    let mut out = Vec::new();
+    match e {
+        Ex::List(xs) | Ex::CommaSeq(xs) | Ex::Seq(xs, _) => out.extend(xs.iter().cloned()),
+        Ex::Dict(d, kvs) => {
+            if let Some(d) = d {
+                out.push((**d).clone());
+            }
+            for (k, v) in kvs {
+                out.push(k.clone());
+                if let Some(v) = v {
+                    out.push(v.clone());
+                }
+            }
+        }
+        Ex::Index(a, b) | Ex::And(a, b) | Ex::Or(a, b) | Ex::Coalesce(a, b) | Ex::While(a, b) | Ex::Bin(a, _, b) => {
+            out.push((**a).clone());
+            out.push((**b).clone());
+        }
+        Ex::Slice(x, a, b) => {
+            out.push((**x).clone());
+            if let Some(a) = a {
+                out.push((**a).clone());
+            }
+            if let Some(b) = b {
+                out.push((**b).clone());
+            }
+        }
+        Ex::Call(g, args) => {
+            out.push((**g).clone());
+            out.extend(args.iter().cloned());
+        }
+        Ex::Splat(x) | Ex::Throw(x) | Ex::Freeze(x) | Ex::EvalOf(x) => out.push((**x).clone()),
+        Ex::Chain(first, rest) => {
+            out.push((**first).clone());
+            out.extend(rest.iter().map(|(_, x)| x.clone()));
+        }
+        Ex::Update(x, kvs) => {
+            out.push((**x).clone());
+            for (k, v) in kvs {
+                out.push(k.clone());
+                out.push(v.clone());
+            }
+        }
+        Ex::If(c, a, b) => {
+            out.push((**c).clone());
+            out.push((**a).clone());
+            if let Some(b) = b {
+                out.push((**b).clone());
+            }
+        }
+        Ex::Break(_, Some(v)) | Ex::Return(Some(v)) => out.push((**v).clone()),
+        Ex::Try(a, _, b) => {
+            out.push((**a).clone());
+            out.push((**b).clone());
+        }
+        Ex::Switch(s, arms) => {
+            out.push((**s).clone());
+            out.extend(arms.iter().map(|(_, b)| b.clone()));
+        }
+        _ => {}
+    }
+    (out, ())
+}
+
+/// names written by lambda bodies in `e` that are not local to that lambda (outer variables and
+/// cells captured from an enclosing scope)
+pub fn lambda_free_writes(e: &Ex) -> BTreeSet<String> {
+    let mut out = BTreeSet::new();
+    walk(e, &mut |x| {
+        if let Ex::Lambda(..) = x {
+            let a = Analysis::of(x);
+            out.extend(a.free_written.iter().cloned());
+        }
+    });
+    out
+}
